@@ -360,7 +360,7 @@ def gitEngine : List String → String
       | [n, m, b] => do
         let mode := match m with
           | "d" => GitMode.dir | "f" => .regular | "x" => .executable | "L" => .symlink | "s" => .submodule
-          | "g" => .deprecated | _ => .other
+          | "g" => .deprecated | "r" => .oddRegular | "X" => .oddExecutable | _ => .other
         pure (⟨← fromHex n, mode, ← fromHex b⟩ : GitEntry)
       | _ => none)
     match parseUnpackFilter f, mu.toNat?, mg.toNat?, parsed with
@@ -368,13 +368,18 @@ def gitEngine : List String → String
       | .panic => "panic"
       | .corrupt => "err rio-ware-corrupt"
       | .ok ms =>
-        -- filters are applied to every entry (errors ignored by the code: git has no devices / setid bits)
-        -- and the final re-paving sets every directory's mtime to the default time, whatever the mtime filter says
-        let ms' := ms.map (fun m => match applyUnpackFilter mu mg ff m with
-          | .ok m' => if m'.kind = Kind.dir then { m' with mtime := defaultTime } else m'
-          | _ => m)
-        let lines := ms'.map (fun m => s!"{toHex m.name.path}|{kindTok m.kind}|{m.perms}|{m.uid}|{m.gid}|{m.mtime.sec}|{toHex m.linkname}")
-        ",".intercalate (sortBy (fun (x : String) => x.toUTF8.toList) lines)
+        -- filters are applied to every entry; a filter that cannot be applied (mtime=now) is the unpack's error (since
+        -- the `fix:`; before, git dropped the error). The final re-paving sets every directory's mtime to the default
+        -- time, whatever the mtime filter says
+        let rs := ms.map (fun m => applyUnpackFilter mu mg ff m)
+        match rs.findSome? (fun r => match r with | .err c => some c | _ => none) with
+        | some c => "err " ++ c.tok
+        | none =>
+          let ms' := (ms.zip rs).map (fun (m, r) => match r with
+            | .ok m' => if m'.kind = Kind.dir then { m' with mtime := defaultTime } else m'
+            | _ => m)
+          let lines := ms'.map (fun m => s!"{toHex m.name.path}|{kindTok m.kind}|{m.perms}|{m.uid}|{m.gid}|{m.mtime.sec}|{toHex m.linkname}")
+          ",".intercalate (sortBy (fun (x : String) => x.toUTF8.toList) lines)
     | _, _, _, _ => "bad-op"
   | _ => "bad-op"
 
